@@ -250,3 +250,39 @@ func (d *DataEnv) Slots() string {
 }
 
 func float64bits(f float64) uint64 { return math.Float64bits(f) }
+
+// HSteps renders the setter calls of Apply as history steps of Model/VCase.v.
+func (d *DataEnv) HSteps() []string {
+	var ss []string
+	if d.User.Present {
+		ss = append(ss, fmt.Sprintf("HSet #\"%x\" (%s) false", "user", d.User.gallina()))
+	}
+	for i := range d.Statics {
+		v := &d.Statics[i]
+		name := gBytes([]byte(v.Name))
+		switch v.Kind {
+		case "setbytes", "setstring":
+			ss = append(ss, fmt.Sprintf("HSetBytes %s %s", name, gBytes(v.S)))
+		case "counter":
+			ss = append(ss, fmt.Sprintf("HSetCounter %s %s", name, gZ(v.I)))
+		default:
+			val := "VNil"
+			switch v.Kind {
+			case "int", "int64", "int8":
+				val = "(VInt " + gZ(v.I) + ")"
+			case "uint", "uint32":
+				val = "(VUint " + gZu(v.U) + ")"
+			case "float":
+				val = gFloat(v.F)
+			case "bool":
+				val = "(VBool " + gBool(v.B) + ")"
+			case "string":
+				val = "(VStr " + gBytes(v.S) + ")"
+			case "bytes":
+				val = "(VBytes " + gBytes(v.S) + ")"
+			}
+			ss = append(ss, fmt.Sprintf("HSet %s %s true", name, val))
+		}
+	}
+	return ss
+}
